@@ -46,6 +46,25 @@ def unhx (s : String) : Bytes :=
     | _ => []
   go s.toList
 
+/-- The pseudo-random byte string both sides of a transcript agree on (`val=rnd:<seed>:<len>`):
+    x' = (x * 1103515245 + 12345) mod 2^31, byte = (x' / 2^16) mod 256. -/
+def rndBytes (seed n : Nat) : Bytes :=
+  let rec go (k : Nat) (x : Nat) (acc : Array Nat) : Array Nat :=
+    match k with
+    | 0 => acc
+    | k + 1 =>
+      let x' := (x * 1103515245 + 12345) % 2147483648
+      go k x' (acc.push ((x' / 65536) % 256))
+  (go n (seed % 2147483648) (Array.mkEmpty n)).toList
+
+/-- a field value: hex, `.` (empty) or `rnd:<seed>:<len>` -/
+def parseVal (s : String) : Bytes :=
+  if s.startsWith "rnd:" then
+    match ((s.drop 4).toString).splitOn ":" with
+    | [a, b] => rndBytes (a.toNat?.getD 0) (b.toNat?.getD 0)
+    | _ => []
+  else unhx s
+
 def hexDigit (n : Nat) : Char := if n < 10 then Char.ofNat (48 + n) else Char.ofNat (87 + n)
 
 def hx (b : Bytes) : String :=
@@ -100,7 +119,7 @@ def parseBatchLines (cmds : List Cmd) : Batch :=
     match c.op with
     | "doc" => acc ++ [({ id := unhx (c.arg 0), plain := c.getD "plain" "0" == "1", fields := [] } : DocIn)]
     | "comp" => updLastDoc (fun d => { d with fields := d.fields ++ [({ kind := FKind.comp, name := strBytes (c.arg 0), typ := 99, len := c.nat "len" 0, dv := c.getD "dv" "0" == "1" } : FieldIn)] })
-    | "fld" => updLastDoc (fun d => { d with fields := d.fields ++ [({ kind := FKind.fld, name := strBytes (c.arg 0), typ := c.nat "typ" 116, stored := c.getD "st" "0" == "1", dv := c.getD "dv" "0" == "1", len := c.nat "len" 0, ap := parseNatList "," (c.getD "ap" "-"), val := unhx (c.getD "val" ".") } : FieldIn)] })
+    | "fld" => updLastDoc (fun d => { d with fields := d.fields ++ [({ kind := FKind.fld, name := strBytes (c.arg 0), typ := c.nat "typ" 116, stored := c.getD "st" "0" == "1", dv := c.getD "dv" "0" == "1", len := c.nat "len" 0, ap := parseNatList "," (c.getD "ap" "-"), val := parseVal (c.getD "val" ".") } : FieldIn)] })
     | "syn" => updLastDoc (fun d => { d with fields := d.fields ++ [({ kind := FKind.syn, name := strBytes (c.arg 0) } : FieldIn)] })
     | "def" => updLastField (fun f => { f with defs := f.defs ++ [({ lhs := unhx (c.arg 0), rhs := unhxList (c.getD "rhs" "-") } : SynDefn)] })
     | "vec" => updLastDoc (fun d => { d with fields := d.fields ++ [({ kind := FKind.vec, name := strBytes (c.arg 0), dim := c.nat "dim" 1, metric := metricCode (c.getD "metric" "l2_norm"), opt := optCode (c.getD "opt" "recall"), vec := parseIntList (c.getD "x" "-") } : FieldIn)] })
